@@ -69,6 +69,11 @@ CHECKS = {
          "Every version 1.0..1.25 in both spellings plus unset, 1.99, 2.0 x every example package and odd/build-constraint file x all checkers (one long-lived set per version). For versions >= 1.13 every std function, method or 0o literal named in a diagnostic's message or fix and not quoted from the analysed file is dated with GOROOT/api/go1.*.txt and must not be newer than the configured version. Equivalences: unset == 1.25 == 1.99; '1.N' == 'go1.N' for every N. Parser: every string over {go,1,2,0,9,10,.,x,-,blank} up to 4 symbols against the numeric reading; comparator: all pairs over 11 versions against (major,minor) lexicographic order. Plumbing: 11 versions through -go on go-critic, gocritic and go-critic-analysis compared with SetGoVersion in-process on a witness that changes at 1.13/1.15/1.17/1.18.",
          "Method names are dated by their earliest appearance on any standard type (lower bound, cannot alarm falsely); a token that occurs anywhere in the analysed file counts as quoted.",
          "DESIGN.md section 3, C15"),
+ "C16": ("exploration",
+         "exhaustive enumeration of path layouts on the real shortenLocation, of header-comment classes on the real isGenerated, and of flag/workspace configurations on the real binary against in-process diagnostics",
+         "(a) 4.2 million layouts: working dir (or none), GOPATH, GOROOT over all paths of depth <=2 and file over all paths of depth <=3 over the segments {go,src,w,go-x,w.go} (every prefix/equality/substring relation occurs), executed inside the instrumented binaries on the real shortenLocation; expanding the printed prefix must give back the input. (b) 16 header classes (licence, marker, marker as package doc, licence-then-marker, marker-then-licence, trailing/leading text, mid-sentence, block comments, after the package clause, second line of a group, lower case, no period, build tag first) on the real isGenerated vs go/ast.IsGenerated. (c) real go-critic/gocritic: workspace with plain/_test/generated/generated-test/clean files, same-named files in different packages of which one is generated (both orders), a directory named w.go, x checkTests x checkGenerated x exitCode {1,0,3,255} x shorterErrLocation x {module root, sub-directory, absolute arguments} x package sets: every expected diagnostic exactly once with a location that resolves to the real file:line:col, nothing for filtered files, exit 0 iff no line else the configured code.",
+         "Expected diagnostics come from the same checker run in-process (assignOp); $GOROOT-prefixed output is only covered by the layout sweep.",
+         "DESIGN.md section 3, C16"),
 }
 
 PENDING = {
